@@ -96,6 +96,18 @@ Models == <<
 >>
 NM == Len(Models)
 MIdx(n) == CHOOSE i \in 1..NM : Models[i].name = n
+\* Program with an ARRAY-valued choice (C27 only): sites 1 and 2 are the two elements of one choice
+\* x ~ categorical(probs = 2x3 matrix) @ "x" (value of shape (2,), log-density = SUM over the elements);
+\* y depends on x[0].  The joint is the product over the sites, as for every other model.
+VecModels == <<
+  [name |-> "vec", fam |-> "vec", nargs |-> 0, arg |-> 0, sites |-> <<
+      Site(<<"x">>, "vec", 0, <<R3a>>),
+      Site(<<"x">>, "vec", 0, <<R3c>>),
+      Site(<<"y">>, "cat", 1, <<R3b, R3a, R3c>>) >>]
+>>
+VecAt == {1, 2}
+AllModels == Models \o VecModels
+ModelNamed(n) == AllModels[CHOOSE i \in 1..Len(AllModels) : AllModels[i].name = n]
 
 \* Proposals q(.; target): independent tables for the sites in `on`; the row of every table is
 \* selected by the OBSERVED value of site `dep` (0: constant proposal).
@@ -243,6 +255,15 @@ MHW(m, k, at, dep, c, d) ==
 \* diagnosis only: the backward density evaluated with arguments taken from the OLD choices
 MHWOldArgs(m, k, at, dep, c, d) ==
   JointLP(m, d) + MHq(k, at, dep, c, c[at]) - JointLP(m, c) - MHq(k, at, dep, c, d[at])
+\* the same edit also changes the model's arguments (model m -> m2 of the same family): p(x') is the
+\* density under the NEW arguments, p(x) under the old ones
+MHWArgs(m, m2, k, at, dep, c, d) ==
+  JointLP(m2, d) + MHq(k, at, dep, d, c[at]) - JointLP(m, c) - MHq(k, at, dep, c, d[at])
+\* array-valued choice: the proposal acts elementwise on the sites in At, densities are summed
+MHqV(k, At, from, to) ==
+  ISum(At, LAMBDA i : CASE k = "rw" -> 0 - RWT[((to[i] - from[i] + 3) % 3) + 1]
+                        [] k = "const" -> 0 - CTT[to[i] + 1])
+MHWV(m, k, At, c, d) == JointLP(m, d) + MHqV(k, At, d, c) - JointLP(m, c) - MHqV(k, At, c, d)
 Moved(c, at, v) == [c EXCEPT ![at] = v]
 MHAcc(w) == IF w >= 0 THEN ROne ELSE Pow2(w)
 
@@ -296,7 +317,11 @@ Next ==
           /\ Card(Models[sc.m], at) = 3
           /\ (k = "dep") = (dep # 0)
           /\ dep # at
-          /\ sc' = Sc("mh", sc.m, <<>>, at, dep, 0, <<>>, {}, k)
+          /\ \/ sc' = Sc("mh", sc.m, <<>>, at, dep, 0, <<>>, {}, k)
+             \/ \E m2 \in {j \in 1..NM : Models[j].fam = Models[sc.m].fam /\ j # sc.m} :
+                   sc' = Sc("mha", sc.m, <<>>, at, dep, m2, <<>>, {}, k)
+  \/ /\ sc.kind = "catalogue" /\ "mh" \in Kinds
+     /\ \E k \in {"rw", "const"} : sc' = Sc("mhv", 1, <<>>, 0, 0, 0, <<>>, {}, k)
 
 Spec == Init /\ [][Next]_sc
 
@@ -429,6 +454,24 @@ MHStationary ==
                           a == MHAcc(MhW(d, e))
                       IN  RMul(RMul(Pj(MhM, d), MhQ(d, v)), <<a[2] - a[1], a[2]>>))
       IN  RAdd(inflow, stay) = Pj(MhM, d)
+\* argument change: the ratio of the move m -> m2 is minus the ratio of the reverse move m2 -> m
+MHArgsAntisymmetric ==
+  sc.kind = "mha" =>
+    LET m == Models[sc.m]  m2 == Models[sc.m2] IN
+    \A c \in Asg(m) : \A v \in 0..2 :
+      /\ MHWArgs(m, m2, sc.mh, sc.p, sc.K, c, Moved(c, sc.p, v))
+           = 0 - MHWArgs(m2, m, sc.mh, sc.p, sc.K, Moved(c, sc.p, v), c)
+      /\ MHWArgs(m, m, sc.mh, sc.p, sc.K, c, Moved(c, sc.p, v)) = MHW(m, sc.mh, sc.p, sc.K, c, Moved(c, sc.p, v))
+\* array-valued choice: antisymmetry and detailed balance of the elementwise proposal with summed densities
+VMoves(m, c) == {d \in Asg(m) : \A i \in (1..NS(m)) \ VecAt : d[i] = c[i]}
+MHVecLaws ==
+  sc.kind = "mhv" =>
+    LET m == VecModels[sc.m] IN
+    \A c \in Asg(m) : \A d \in VMoves(m, c) :
+      /\ MHWV(m, sc.mh, VecAt, c, d) = 0 - MHWV(m, sc.mh, VecAt, d, c)
+      /\ RMul(RMul(Pj(m, c), Pow2(MHqV(sc.mh, VecAt, c, d))), MHAcc(MHWV(m, sc.mh, VecAt, c, d)))
+           = RMul(RMul(Pj(m, d), Pow2(MHqV(sc.mh, VecAt, d, c))), MHAcc(MHWV(m, sc.mh, VecAt, d, c)))
+      /\ RSum(VMoves(m, c), LAMBDA e : Pow2(MHqV(sc.mh, VecAt, c, e))) = ROne
 \* the "old arguments" variant (diagnosis) is NOT the MH ratio for the random walk
 MHOldArgsDiffers ==
   (sc.kind = "mh" /\ sc.mh = "rw") =>
@@ -441,7 +484,7 @@ Flags(m, S) == [i \in 1..NS(m) |-> IF i \in S THEN 1 ELSE 0]
 EmitCase ==
   Emit =>
     CASE sc.kind = "catalogue" ->
-           PrintT(<<"CATALOG", ToJson([models |-> Models, props |-> Props,
+           PrintT(<<"CATALOG", ToJson([models |-> Models, vmodels |-> VecModels, props |-> Props,
                                        rwt |-> RWT, ctt |-> CTT, dpt |-> DPT])>>)
       [] sc.kind = "marg" ->
            PrintT(<<"CASE", ToJson([kind |-> "marg", model |-> Models[sc.m].name,
@@ -449,7 +492,12 @@ EmitCase ==
                                     indep |-> IndepSel(Models[sc.m], sc.S)])>>)
       [] sc.kind = "mh" ->
            PrintT(<<"CASE", ToJson([kind |-> "mh", model |-> Models[sc.m].name, at |-> sc.p,
-                                    dep |-> sc.K, mh |-> sc.mh])>>)
+                                    dep |-> sc.K, mh |-> sc.mh, model2 |-> Models[sc.m].name])>>)
+      [] sc.kind = "mha" ->
+           PrintT(<<"CASE", ToJson([kind |-> "mh", model |-> Models[sc.m].name, at |-> sc.p,
+                                    dep |-> sc.K, mh |-> sc.mh, model2 |-> Models[sc.m2].name])>>)
+      [] sc.kind = "mhv" ->
+           PrintT(<<"CASE", ToJson([kind |-> "mhv", model |-> VecModels[sc.m].name, mh |-> sc.mh])>>)
       [] sc.kind = "smc" ->
            PrintT(<<"CASE", ToJson([kind |-> "smc", model |-> Models[sc.m].name, o |-> sc.o,
                                     prop |-> PropAt(sc.p).name, K |-> sc.K,
